@@ -1,7 +1,7 @@
 import BdModel.Cron.Daemon
 /-
   Helper lemmas for C09: the search behind `Next` returns the least firing minute (induction on the
-  search, for every fuel / limit), the tick arithmetic, and the structure of `runTick`.
+  search, for every fuel / limit), the tick arithmetic, and the structure of `runTickPinned`.
 -/
 namespace BdModel.Cron
 
@@ -217,23 +217,23 @@ theorem loopTicks_fst (m : Nat) : ∀ (nows : List Nat),
     simp only [Function.comp]
     omega
 
-/-! ## structure of `runTick` -/
+/-! ## structure of `runTickPinned` -/
 
-theorem runTick_nil (susp : Nat → Bool) (st : Nat → Status) (t : Nat) : runTick [] susp st t = [] := rfl
+theorem runTickPinned_nil (susp : Nat → Bool) (st : Nat → Status) (t : Nat) : runTickPinned [] susp st t = [] := rfl
 
-theorem runTick_cons (d : Dag) (rest : List Dag) (susp : Nat → Bool) (st : Nat → Status) (t : Nat) :
-    runTick (d :: rest) susp st t =
-      (if susp d.id then [] else (entriesOf d).filterMap (entryAct st t)) ++ runTick rest susp st t := by
-  unfold runTick readEntries
+theorem runTickPinned_cons (d : Dag) (rest : List Dag) (susp : Nat → Bool) (st : Nat → Status) (t : Nat) :
+    runTickPinned (d :: rest) susp st t =
+      (if susp d.id then [] else (entriesOf d).filterMap (entryAct st t)) ++ runTickPinned rest susp st t := by
+  unfold runTickPinned readEntries
   by_cases h : susp d.id = true
   · simp [h]
   · have h' : susp d.id = false := by simpa using h
     simp [h', List.filterMap_append]
 
-theorem mem_runTick (dags : List Dag) (susp : Nat → Bool) (st : Nat → Status) (t : Nat) (a : Act) :
-    a ∈ runTick dags susp st t ↔
+theorem mem_runTickPinned (dags : List Dag) (susp : Nat → Bool) (st : Nat → Status) (t : Nat) (a : Act) :
+    a ∈ runTickPinned dags susp st t ↔
       ∃ d ∈ dags, susp d.id = false ∧ ∃ e ∈ entriesOf d, entryAct st t e = some a := by
-  unfold runTick readEntries
+  unfold runTickPinned readEntries
   simp only [List.mem_filterMap, List.mem_flatMap, List.mem_filter]
   constructor
   · rintro ⟨e, ⟨d, ⟨hd, hs⟩, he⟩, ha⟩
@@ -451,13 +451,13 @@ theorem initDags_skip_err (pre post : List (Nat × Load)) (id : Nat) (m : List D
     | some m' => exact ih m'
 
 /-- the calls issued for DAG `d` depend only on the definitions loaded under id `d` -/
-theorem runTick_filter_dag (dags : List Dag) (susp : Nat → Bool) (st : Nat → Status) (t d : Nat) :
-    (runTick dags susp st t).filter (fun a => a.dag == d) =
-      runTick (dags.filter (fun x => x.id == d)) susp st t := by
+theorem runTickPinned_filter_dag (dags : List Dag) (susp : Nat → Bool) (st : Nat → Status) (t d : Nat) :
+    (runTickPinned dags susp st t).filter (fun a => a.dag == d) =
+      runTickPinned (dags.filter (fun x => x.id == d)) susp st t := by
   induction dags with
-  | nil => simp [runTick_nil]
+  | nil => simp [runTickPinned_nil]
   | cons x rest ih =>
-    rw [runTick_cons, List.filter_append, ih]
+    rw [runTickPinned_cons, List.filter_append, ih]
     have hall : ∀ a ∈ (if susp x.id then [] else (entriesOf x).filterMap (entryAct st t)), a.dag = x.id := by
       intro a ha
       by_cases hs : susp x.id = true
@@ -469,7 +469,7 @@ theorem runTick_filter_dag (dags : List Dag) (susp : Nat → Bool) (st : Nat →
     by_cases hx : x.id = d
     · have h1 : (x :: rest).filter (fun y => y.id == d) = x :: rest.filter (fun y => y.id == d) := by
         simp [hx]
-      rw [h1, runTick_cons]
+      rw [h1, runTickPinned_cons]
       congr 1
       apply List.filter_eq_self.mpr
       intro a ha
